@@ -108,6 +108,10 @@ def stepOne (s : Sys) (tok : String) : Sys × String :=
         | some cm => ({ s with cons := { s.cons with maps := s.cons.maps.set m { cm with cobId := cob, enabled := en, rtrAllowed := rtr } } }, "ok")
         | none => (s, "bad"))
      | _, _, _, _ => (s, "bad"))
+  | ["d", m, cob, en, rtr] =>
+    (match m.toNat?, cob.toNat?, parseBool en, parseBool rtr with
+     | some m, some cob, some en, some rtr => ({ s with cons := readFromOd s.cons m cob en rtr }, "ok")
+     | _, _, _, _ => (s, "bad"))
   | ["b", m, tag] =>
     (match m.toNat?, tag.toNat? with
      | some m, some tag =>
